@@ -167,7 +167,12 @@ Definition uf_op (sb : B) (sl : L) (u : ufile) (o : op) : B * L * ufile * res :=
         end
       else (sb, sl, Some (ufiles u), None) in
     match filled with
-    | (sb1, sl1, None, e) => (sb1, sl1, u, names (RInfos [] e))
+    | (sb1, sl1, None, e) =>
+      (* `return nil, err`: no entries and an error (canonical form of a failed listing: RErr) *)
+      (sb1, sl1, u, match e with
+                    | Some er => if errk_eqb (ek er) KEOF then names (RInfos [] e) else RErr er
+                    | None => names (RInfos [] None)
+                    end)
     | (sb1, sl1, Some all, _) =>
       let files := skipn (Z.to_nat (uoff u)) all in
       let u1 := mkUF (ubase u) (ulayer u) (uoff u) all in
